@@ -225,9 +225,11 @@ def pyfftw_call(array_in, array_out, direction='forward', axes=None,
     else:
         fftw_plan = fftw_plan_in
 
-    if (direction == 'backward' and halfcomplex and array_in.ndim != 1 and
-            not array_in_copied):
-        # Multi-dimensional C2R transforms always destroy their input
+    if direction == 'backward' and halfcomplex and not array_in_copied:
+        # C2R transforms destroy their input: always in several dimensions,
+        # and in 1d whenever the plan was made with FFTW_DESTROY_INPUT (as
+        # above, for planning on a scratch array) and FFTW picks an
+        # algorithm that makes use of it (many even sizes >= 18).
         array_in = array_in.copy()
 
     if not normalise_idft and direction=='forward':
